@@ -849,6 +849,28 @@ def with_prefixes(make, tag, n, seed0, plen=2):
     return out
 
 
+def mappable(depth=3):
+    """C08, mappable registers: a sequence on MappableRegister(layout of 5 traps, q1, q2, q3) built
+    with full, partial and permuted mappings."""
+    devs = [{"nq": 3, "chs": [
+        {"kind": "ryd", "addr": "G", "clock": 4, "minDur": 8, "bw": 80.0},
+        {"kind": "ram", "addr": "L", "clock": 4, "minDur": 4, "minRet": 20, "fixRet": 8, "maxTg": 2},
+    ]}]
+    pulses = [Pulse.ConstantPulse(16, 1.0, 0.0, 0.0), Pulse.ConstantPulse(12, 1.0, -1.0, 0.5, post_phase_shift=0.5)]
+    calls = [{"op": "declare", "nm": 1, "cid": 1, "it": 0}, {"op": "declare", "nm": 2, "cid": 2, "it": 1}]
+    P = "min-delay"
+    for (nm, p, proto) in ((1, 1, P), (1, 2, "no-delay"), (2, 1, P), (2, 2, "wait-for-all")):
+        calls.append({"op": "add", "nm": nm, "p": p, "proto": proto})
+    calls += [{"op": "target", "nm": 2, "tg": 4}, {"op": "target", "nm": 2, "tg": 5}, {"op": "target", "nm": 2, "tg": 2},
+              {"op": "delay", "nm": 1, "d": 16, "rest": True}, {"op": "align", "nms": [1, 2], "rest": True},
+              {"op": "pshift", "phi": 1, "tg": 1, "basis": "ground-rydberg"},
+              {"op": "pshift", "phi": 1, "tg": 0, "basis": "digital"}, {"op": "measure", "basis": "digital"}]
+    c = Config("mappable", devs, pulses, calls, [1, 2], depth)
+    # partial mappings must name the first qubits of the declared order (documented restriction)
+    c.mappings = [{"q1": 0, "q2": 1, "q3": 2}, {"q2": 0, "q1": 3}, {"q3": 4, "q2": 2, "q1": 1}, {"q1": 2}]
+    return c
+
+
 def instances(name, tier):
     """The configurations of family `name` for a tier (each with a unique .name tag)."""
     from .env import seed as _seed0
@@ -922,6 +944,10 @@ def instances(name, tier):
         c.relations = True
         out.append(c)
         return out
+    if name == "mappable":
+        c = mappable(3 if quick else 4)
+        c.name = f"mappable-d{c.max_depth}"
+        return [c]
     if name == "template":
         c = template(3)
         c.name = "template-d3"
